@@ -10,4 +10,5 @@ var Profiles = map[string]Profile{
 	"oracle": {Mods: []string{"bank", "oracle", "distr"}, Run: OracleProfile},
 	"bankvm": {Mods: []string{"bank", "vesting", "cvm", "staking"}, Run: BankVMProfile},
 	"gov":    {Mods: []string{"bank", "gov", "cert", "staking"}, Run: GovProfile},
+	"shield": {Mods: []string{"bank", "shield", "gov", "cert", "staking"}, Run: ShieldProfile},
 }
